@@ -93,7 +93,15 @@ def run(ctx):
         T, mT = mk_tensor(rng, cls)
         same_meta = rng.random() < 0.6
         ucls = cls if rng.random() < 0.8 else (cls + 1) % 3
-        U, mU = mk_tensor(rng, ucls, mT if (same_meta and ucls == cls) else None)
+        if ucls == cls and not same_meta and rng.random() < 0.7:
+            # conflicting metadata differing in exactly ONE parameter (including unset vs set, in both directions)
+            mU0 = dict(mT)
+            key = rng.choice(sorted(mU0))
+            alt = {"order": ORDERS, "species": ["13C", "1H", "15N"] if cls == 1 else ["2H", "17O", "14N"], "reference": [None, 30.0, 170.5], "gradient": [-1.0, -0.98]}[key]
+            mU0[key] = rng.choice([x for x in alt if x != mU0[key]])
+            U, mU = mk_tensor(rng, ucls, mU0)
+        else:
+            U, mU = mk_tensor(rng, ucls, mT if (same_meta and ucls == cls) else None)
         A, B = np.array(T.data), np.array(U.data)
         k = rng.choice([2, -3, 0.5, np.float64(1.5), np.int64(4), -0.25])
         M = rnd_mat(rng)
@@ -232,7 +240,21 @@ def run(ctx):
                           [1, cls] + [z for x in np.array(r.data).ravel() for z in (Fr(float(x)).limit_denominator(10 ** 12).numerator, Fr(float(x)).limit_denominator(10 ** 12).denominator)]
                           + [len(meta_code(params(r)))] + meta_code(params(r))))
             meta.append(("mean", case))
-    # incompatible tensors in a mean are refused
+    # incompatible tensors in a mean are refused, whichever of the two comes first and also when one of the values is simply unset
+    for t in range(20):
+        base = dict(species="13C", order="i", reference=rng.choice([None, 30.0]), gradient=-1.0)
+        other = dict(base)
+        key = rng.choice(["species", "order", "reference", "gradient"])
+        other[key] = {"species": "1H", "order": "h", "reference": 170.5 if base["reference"] is None else None, "gradient": -0.98}[key]
+        x1, _ = mk_tensor(rng, 1, base)
+        x2, _ = mk_tensor(rng, 1, other)
+        for lst in ([x1, x2], [x2, x1]):
+            try:
+                MagneticShielding.mean(lst)
+                ctx.fail_input("mean", dict(kind="conflict", first=str(params(lst[0])), second=str(params(lst[1]))), "mean silently combined tensors with conflicting %s" % key, classify)
+            except ValueError:
+                pass
+            ctx.evaluations += 1
     for t in range(10):
         a_, ma = mk_tensor(rng, 1, dict(species="13C", order="i", reference=None, gradient=-1.0))
         b_, mb = mk_tensor(rng, 1, dict(species="1H", order="i", reference=None, gradient=-1.0))
